@@ -76,7 +76,7 @@ impl core::fmt::Display for PlainDateTime {
     fn fmt(&self, f: &mut core::fmt::Formatter<'_>) -> core::fmt::Result {
         let ixdtf_str = self
             .to_ixdtf_string(ToStringRoundingOptions::default(), DisplayCalendar::Auto)
-            .expect("ixdtf default configuration should not fail.");
+            .map_err(|_| core::fmt::Error)?;
         f.write_str(&ixdtf_str)
     }
 }
